@@ -217,3 +217,103 @@ Theorem tagsv2_bytes : forall xs, parse_bytes (render (tokensJ_of (tagsv2_val xs
 Proof. intros xs. apply marshal_value_bytes, nums_ok_tagsv2. Qed.
 Theorem valuesv2_bytes : forall xs, parse_bytes (render (tokensJ_of (valuesv2_val xs))) = Some (sanitize_doc (valuesv2_val xs)).
 Proof. intros xs. apply marshal_value_bytes, nums_ok_valuesv2. Qed.
+
+(* ------------------------------------------------------------------------------------------ *)
+(* the default: branch of SpanToJSONSpan: array / key-value list / unset attribute values *)
+
+Section OvalInd.
+  Variable P : oval -> Prop.
+  Hypothesis Hs : forall s, P (OStr s).
+  Hypothesis Hb : forall b, P (OBool b).
+  Hypothesis Hi : forall z, P (OInt z).
+  Hypothesis Hd : forall bits, P (ODouble bits).
+  Hypothesis Hy : forall s, P (OBytes s).
+  Hypothesis Hu : P OUnset.
+  Hypothesis Ha : forall vs, Forall P vs -> P (OArr vs).
+  Definition okv_all (kv : string * option oval) : Prop := match snd kv with Some x => P x | None => True end.
+  Hypothesis Hk : forall kvs, Forall okv_all kvs -> P (OKv kvs).
+  Fixpoint oval_ind2 (v : oval) : P v :=
+    match v with
+    | OStr s => Hs s
+    | OBool b => Hb b
+    | OInt z => Hi z
+    | ODouble bits => Hd bits
+    | OBytes s => Hy s
+    | OUnset => Hu
+    | OArr vs => Ha vs ((fix go (l : list oval) : Forall P l :=
+                           match l with
+                           | [] => Forall_nil _
+                           | x :: r => Forall_cons x (oval_ind2 x) (go r)
+                           end) vs)
+    | OKv kvs => Hk kvs ((fix go (l : list (string * option oval)) : Forall okv_all l :=
+                            match l with
+                            | [] => Forall_nil _
+                            | kv :: r => @Forall_cons _ okv_all kv r
+                                           (match kv as kv0 return okv_all kv0 with
+                                            | (_, Some x) => oval_ind2 x
+                                            | (_, None) => I
+                                            end) (go r)
+                            end) kvs)
+    end.
+End OvalInd.
+
+Lemma nums_ok_olist_val : forall items, forallb nums_ok items = true -> nums_ok (olist_val items) = true.
+Proof.
+  intros items H. unfold olist_val. destruct items as [|x r]; [reflexivity|].
+  cbn [nums_ok forallb snd]. cbn [forallb] in H. rewrite H. reflexivity.
+Qed.
+
+Lemma nums_ok_oval_json : forall v, oval_finite v = true -> nums_ok (oval_json v) = true.
+Proof.
+  induction v as [s|b|z|bits|s| |vs HF|kvs HF] using oval_ind2; intros Hf; try reflexivity.
+  - cbn [oval_json nums_ok forallb snd jint]. rewrite int_text_num_ok. reflexivity.
+  - cbn [oval_json nums_ok forallb snd jfloat]. cbn [oval_finite] in Hf. rewrite (gojson_float_text_num_ok _ Hf). reflexivity.
+  - cbn [oval_json]. cbn [nums_ok forallb snd]. rewrite nums_ok_olist_val; [reflexivity|].
+    cbn [oval_finite] in Hf. rewrite forallb_forall in Hf. rewrite Forall_forall in HF.
+    apply forallb_forall. intros j Hj. apply in_map_iff in Hj. destruct Hj as [x [<- Hx]].
+    cbn [nums_ok forallb snd]. rewrite (HF x Hx (Hf x Hx)). reflexivity.
+  - cbn [oval_json]. cbn [nums_ok forallb snd]. rewrite nums_ok_olist_val; [reflexivity|].
+    cbn [oval_finite] in Hf. rewrite forallb_forall in Hf. rewrite Forall_forall in HF.
+    apply forallb_forall. intros j Hj. apply in_map_iff in Hj. destruct Hj as [[k o] [<- Hx]].
+    unfold okv_member. apply nums_ok_omit_b. cbn [forallb snd fst]. 
+    assert (Hk : match nonempty_str k with Some v => nums_ok v | None => true end = true)
+      by (unfold nonempty_str; destruct k; reflexivity).
+    rewrite Hk. specialize (HF _ Hx). specialize (Hf _ Hx). cbn [snd] in HF, Hf.
+    destruct o as [x|]; [|reflexivity]. cbn [option_map nums_ok forallb snd]. rewrite (HF Hf). reflexivity.
+Qed.
+
+(* the text written for an array / key-value list / unset attribute value is itself ONE JSON document: the field walk
+   of the oneof wrapper, whenever no NaN / infinity sits inside; otherwise json.Marshal fails and the text is empty *)
+Theorem nested_value_text_bytes : forall v, oval_default v = true -> oval_finite v = true ->
+  parse_bytes (oval_text v) = Some (sanitize_doc (oval_json v)).
+Proof.
+  intros v Hd Hf.
+  assert (Ht : oval_text v = render (tokensJ_of (oval_json v))).
+  { destruct v; try discriminate Hd; cbn [oval_text]; unfold marshal_text; rewrite Hf; reflexivity. }
+  rewrite Ht. apply marshal_value_bytes, nums_ok_oval_json, Hf.
+Qed.
+Theorem nested_value_text_nonfinite : forall v, oval_default v = true -> oval_finite v = false -> oval_text v = EmptyString.
+Proof. intros v Hd Hf. destruct v; try discriminate Hd; cbn [oval_text]; unfold marshal_text; rewrite Hf; reflexivity. Qed.
+
+Definition nested_example : oval :=
+  OKv [("k<", Some (OArr [OStr (String (chr 255) "v"); OInt (-5); ODouble 4609434218613702656; OBytes "Ma"; OUnset; OArr []; OKv []]));
+       ("", Some (OBool true)); ("novalue", None)].
+Example nested_example_text :
+  oval_text nested_example =
+  "{""KvlistValue"":{""values"":[{""key"":""k\u003c"",""value"":{""Value"":{""ArrayValue"":{""values"":[{""Value"":{""StringValue"":""\ufffdv""}},{""Value"":{""IntValue"":-5}},{""Value"":{""DoubleValue"":1.5}},{""Value"":{""BytesValue"":""TWE=""}},{""Value"":null},{""Value"":{""ArrayValue"":{}}},{""Value"":{""KvlistValue"":{}}}]}}}},{""value"":{""Value"":{""BoolValue"":true}}},{""key"":""novalue""}]}}".
+Proof. vm_compute. reflexivity. Qed.
+Example nested_example_met : oval_default nested_example = true /\ oval_finite nested_example = true /\
+  parse_bytes (oval_text nested_example) = Some (sanitize_doc (oval_json nested_example)).
+Proof. vm_compute. repeat split. Qed.
+(* 9221120237041090560 = 0x7FF8000000000000, the quiet NaN *)
+Example nested_nan_text_empty : oval_text (OArr [OInt 1; OKv [("a", Some (ODouble 9221120237041090560))]]) = EmptyString.
+Proof. vm_compute. reflexivity. Qed.
+Example unset_text : oval_text OUnset = "null".
+Proof. vm_compute. reflexivity. Qed.
+
+Example take_oattrs_old : take_oattrs 2 ["k"; "s"; "v"; "n"; "i"; "-5"; "rest"] = ([("k", OStr "v"); ("n", OInt (-5))], ["rest"]).
+Proof. vm_compute. reflexivity. Qed.
+Example take_oattrs_new :
+  take_oattrs 2 ["k"; "k"; "2"; "in"; "a"; "2"; "u"; ""; "d"; "0"; "p"; "n"; ""; "z"; "u"; ""; "rest"] =
+  ([("k", OKv [("in", Some (OArr [OUnset; ODouble 0])); ("p", None)]); ("z", OUnset)], ["rest"]).
+Proof. vm_compute. reflexivity. Qed.
